@@ -168,6 +168,10 @@ class MenuConfigState:
         if not parent:
             parent = self.kconf.top_node
         self.shown = self.shown_nodes(parent)
+        if self.cur_menu not in self.shown:
+            # e.g. a promptless second definition of a named choice reached through jump-to
+            self.show_all = True
+            self.shown = self.shown_nodes(parent)
         self.sel_node_i = self.shown.index(self.cur_menu)
         self.cur_menu = parent
 
